@@ -913,6 +913,13 @@ func posFileStartProgs() []*pProg {
 			Expected: []pEntry{{"(main)", 1}, {"mb", 1}}, Shape: []string{"file-start"}},
 		{Files: map[string]string{"(main)": "f := import(\"ma\")\nf(0)\n", "ma": "return func(x) {\n  return [x][1]\n}\n", "mz": "return 0\n"},
 			Expected: []pEntry{{"(main)", 2}, {"ma", 2}}, Shape: []string{"file-start"}},
+		// a literal constant referenced on several lines: every reference keeps its own position
+		{Files: map[string]string{"(main)": "const k = 3\na := k + 1\nf := func(v) {\n  return k - v\n}\nb := k * 2\nf(\"s\")\n"},
+			Expected: []pEntry{{"(main)", 7}, {"(main)", 4}}, Shape: []string{"const-refs"}},
+		{Files: map[string]string{"(main)": "const (\n  k = 3\n  m = \"s\"\n)\nx := k + 1\ny := m + \"t\"\nz := k - y\n"},
+			Expected: []pEntry{{"(main)", 7}}, Shape: []string{"const-refs"}},
+		{Files: map[string]string{"(main)": "const k = 2.5\ng := func(v) {\n  return v\n}\ng(k)\nh := func(v) {\n  return k % v\n}\nh(\"x\")\n"},
+			Expected: []pEntry{{"(main)", 9}, {"(main)", 7}}, Shape: []string{"const-refs"}},
 	}
 }
 
@@ -1217,6 +1224,7 @@ func init() {
 			}
 			// positions at the very first byte of a file that is not the last file of the set (the main
 			// script with source modules, an earlier module): the file lookup boundary
+			posFilesOracle(c)
 			for _, p := range posFileStartProgs() {
 				posOracle(c, p)
 				c.Count("shape:file-start")
